@@ -1,6 +1,7 @@
 package main
 
 import (
+	"encoding/json"
 	"fmt"
 	"os"
 	"path/filepath"
@@ -24,6 +25,7 @@ func init() {
 		b.WriteString("Definition fcases : list scopecase := [\n")
 		seen := map[string]bool{}
 		nontrivial := 0
+		var jcases []map[string]any
 		mkList := func(max int) string {
 			k := r.Intn(max + 1)
 			var parts []string
@@ -73,11 +75,15 @@ func init() {
 			}
 			ctx.Meta.Dist[fmt.Sprintf("allowed=%v", allowed)]++
 			ctx.Meta.Dist[fmt.Sprintf("contains=%v", contains)]++
+			jcases = append(jcases, map[string]any{"Index": i, "Note": fmt.Sprintf("AreScopesAllowed(client=%q, requested=%q) = %v", clientScopes, req, allowed),
+				"Spec": map[string]any{"client_scopes": clientScopes, "available": avail, "requested": req, "granted": granted}, "Obs": map[string]any{"allowed": allowed, "contains": contains}})
 			if i < 3 {
 				ctx.Meta.Samples = append(ctx.Meta.Samples, map[string]any{"client_scopes": clientScopes, "available": avail, "requested": req, "allowed": allowed})
 			}
 		}
-		b.WriteString("].\nDefinition corr := Eval vm_compute in map check_scope_case fcases.\nPrint corr.\n")
+		b.WriteString("].\nDefinition corr := Eval vm_compute in map check_scope_case fcases.\nPrint corr.\nDefinition mon := Eval vm_compute in map mon_scope_case fcases.\nPrint mon.\n")
+		jb, _ := json.Marshal(jcases)
+		_ = os.WriteFile(filepath.Join(ctx.Out, "cases.json"), jb, 0o644)
 		_ = os.WriteFile(filepath.Join(ctx.Out, "cases_000.v"), []byte(b.String()), 0o644)
 		ctx.Meta.Files = []string{"cases_000.v"}
 		ctx.Meta.Cases = n
